@@ -136,7 +136,7 @@ func (s *session) delete() error {
 	deletes = append(deletes, &proto.DeleteRequest{
 		Key: sessionKey,
 	})
-	_, err = s.sm.leaderController.WriteBlock(context.Background(), &proto.WriteRequest{
+	cleanup := &proto.WriteRequest{
 		Shard:   &s.shardId,
 		Puts:    nil,
 		Deletes: deletes,
@@ -147,7 +147,9 @@ func (s *session) delete() error {
 				EndExclusive:   sessionKey + "//",
 			},
 		},
-	})
+	}
+	// server-side write: it addresses the session's own internal keys
+	_, err = s.sm.leaderController.writeBlock(context.Background(), func(_ int64) *proto.WriteRequest { return cleanup })
 	s.log.Info("Session cleanup complete",
 		slog.Int("keys-deleted", len(deletes)))
 	return err
